@@ -414,8 +414,70 @@ def same(ctx, what, spec, text, a, b, case):
         return False
     return True
 
+FRESH_CHILD = """
+import sys, io, datetime, warnings
+warnings.simplefilter("ignore")
+from dateutil import tz
+text = bytes.fromhex(%r).decode()
+try:
+    z = tz.tzical(io.StringIO(text)).get()
+    for s in %r:
+        u = datetime.datetime(1970, 1, 1) + datetime.timedelta(seconds=s)
+        b = u.replace(tzinfo=tz.UTC).astimezone(z)
+        print(b.replace(tzinfo=None).isoformat(), b.fold, b.utcoffset(), b.tzname(), b.dst())
+except Exception as ex:
+    print("EXC", type(ex).__name__)
+"""
+
+def answers_in_process(text, points):
+    from dateutil import tz
+    out = []
+    try:
+        with warnings.catch_warnings():
+            warnings.simplefilter("ignore")
+            z = load(text).get()
+            for s in points:
+                u = datetime.datetime(1970, 1, 1) + datetime.timedelta(seconds=s)
+                b = u.replace(tzinfo=tz.UTC).astimezone(z)
+                out.append("%s %s %s %s %s" % (b.replace(tzinfo=None).isoformat(), b.fold, b.utcoffset(), b.tzname(), b.dst()))
+    except Exception as ex:
+        out.append("EXC %s" % type(ex).__name__)
+    return out
+
+def oracle_fresh(ctx):
+    """the first use in a NEW interpreter gives what a long-running process gives: a definition is loaded and queried as the
+    very first dateutil call of a child process (module-level lazy imports and caches empty) and compared with this process,
+    whose answers the main oracle compares with the TZ string"""
+    from vlib import fresh_interpreters
+    rng = ctx.subrng("fresh")
+    jobs = []
+    for k in range(ctx.budget(6, 48)):
+        spec = gen_spec(rng)
+        rd = None
+        if k % 3 != 1:
+            rd = {"dst": [], "std": []}
+            for y in range(2014, 2020):
+                a = datetime.datetime.combine(rule_date(y, spec["sr"]), datetime.time()) + datetime.timedelta(seconds=spec["st"])
+                b = datetime.datetime.combine(rule_date(y, spec["er"]), datetime.time()) + datetime.timedelta(seconds=spec["et"])
+                rd["dst"].append(a.strftime("%Y%m%dT%H%M%S")); rd["std"].append(b.strftime("%Y%m%dT%H%M%S"))
+        text = vtimezone(spec, rng if k % 2 else None, order=rng.randint(0, 1), rdates=rd)
+        epoch = datetime.datetime(1970, 1, 1)
+        points = sorted(int((tu - epoch).total_seconds()) + d for y in (2015, 2018) for tu in transitions_utc(spec, y) for d in (-3600, -1, 0, 1, 3600))
+        jobs.append((text, points, "rdate" if rd else "rrule"))
+    res = fresh_interpreters([FRESH_CHILD % (text.encode().hex(), points) for text, points, _ in jobs])
+    for (text, points, kind), (rc, out, err) in zip(jobs, res):
+        ctx.case(("fresh", text)); ctx.count("fresh_interpreter_" + kind)
+        here = answers_in_process(text, points)
+        there = out.strip().splitlines() if rc == 0 else ["child failed rc=%s: %s" % (rc, err.strip().splitlines()[-1:] or "")]
+        if here != there:
+            i = next((j for j, (x, y) in enumerate(zip(here, there)) if x != y), min(len(here), len(there)))
+            ctx.violation("a VTIMEZONE loaded as the first dateutil call of a new interpreter answers differently: %s, this process: %s"
+                          % (there[i] if i < len(there) else "<nothing>", here[i] if i < len(here) else "<nothing>"),
+                          {"kind": "fresh-interpreter", "mode": kind}, text)
+
 def oracle(ctx):
     from dateutil import tz
+    oracle_fresh(ctx)
     rng = ctx.subrng("oracle")
     nspecs = ctx.budget(40, 1200)
     for k in range(nspecs):
